@@ -34,9 +34,13 @@ Diverge(what) ==
   /\ l' = l + 1 /\ ign' = TRUE
   /\ div' = div \cup {<<run, l, what>>}
   /\ UNCHANGED <<vars, run, expv, cnt>>
-Matched(i) == /\ l' = l + 1
-              /\ cnt' = [cnt EXCEPT ![i] = @ + 1]
-              /\ UNCHANGED <<run, ign, div>>
+\* cnt counts, per action of module Ticket, how many recorded events were explained by it (coverage of the model
+\* by the executions of the real crate; an action that is never matched was never exercised in the code)
+CntNames == {"runs", "results", "Reserve", "Pub", "LoadY", "Chk", "LoadC", "LenLoadC", "LenLoadR", "SkipStoreR",
+             "SetC", "SkipStoreC", "PGuard", "Enter", "SeqEnter", "Exit", "SeqExit"}
+Matched(name) == /\ l' = l + 1
+                 /\ cnt' = [cnt EXCEPT ![name] = @ + 1]
+                 /\ UNCHANGED <<run, ign, div>>
 
 TReset ==
   /\ IsEvent("Reset")
@@ -45,7 +49,7 @@ TReset ==
      /\ ign' = ~ok
      /\ IF ok THEN ResetWith(CfgOfRun(E)) /\ expv' = [t \in 0..E.threads |-> << >>]
         ELSE UNCHANGED <<vars, expv>>
-     /\ cnt' = IF ok THEN [cnt EXCEPT ![1] = @ + 1] ELSE cnt
+     /\ cnt' = IF ok THEN [cnt EXCEPT !["runs"] = @ + 1] ELSE cnt
   /\ UNCHANGED div
 
 TIgnored == l <= N /\ E.e # "Reset" /\ ign /\ Skip
@@ -76,38 +80,38 @@ TAtomic ==
      IN
      CASE E.op = "fa" /\ E.loc = 0 ->
             IF p = "res" /\ W(E.arg) = Want(t) /\ W(E.saw) = reserved /\ E.ord = "AcqRel"
-              THEN Reserve(t) /\ Matched(2) /\ UNCHANGED expv ELSE Diverge("reserve")
+              THEN Reserve(t) /\ Matched("Reserve") /\ UNCHANGED expv ELSE Diverge("reserve")
        [] E.op = "fa" /\ E.loc = 1 ->
             IF p = "pub" /\ W(E.saw) = yielded /\ E.ord = "AcqRel"
                /\ W(E.arg) = (IF PullKind(t) = "s" THEN 1 ELSE Want(t))
-              THEN Pub(t) /\ Matched(2) /\ WithVisits(t) ELSE Diverge("publish")
+              THEN Pub(t) /\ Matched("Pub") /\ WithVisits(t) ELSE Diverge("publish")
        [] E.op = "ld" /\ E.loc = 1 ->
             IF p = "ly" /\ "y" \notin polled[t] /\ W(E.saw) = yielded /\ E.ord = OrdCurrent
-              THEN LoadY(t) /\ Matched(2) /\ WithVisits(t) ELSE Diverge("load-yielded")
+              THEN LoadY(t) /\ Matched("LoadY") /\ WithVisits(t) ELSE Diverge("load-yielded")
        [] E.op = "ld" /\ E.loc = 2 ->
             IF W(E.saw) # B2N(completed) THEN Diverge("load-completed-value")
-            ELSE IF p = "chk" /\ E.ord = "SeqCst" THEN Chk(t) /\ Matched(2) /\ WithVisits(t)
-            ELSE IF p = "lc" /\ "c" \notin polled[t] /\ E.ord = "Relaxed" THEN LoadC(t) /\ Matched(2) /\ WithVisits(t)
-            ELSE IF p = "ldc" /\ E.ord = "SeqCst" THEN LenLoadC(t) /\ Matched(2) /\ UNCHANGED expv
+            ELSE IF p = "chk" /\ E.ord = "SeqCst" THEN Chk(t) /\ Matched("Chk") /\ WithVisits(t)
+            ELSE IF p = "lc" /\ "c" \notin polled[t] /\ E.ord = "Relaxed" THEN LoadC(t) /\ Matched("LoadC") /\ WithVisits(t)
+            ELSE IF p = "ldc" /\ E.ord = "SeqCst" THEN LenLoadC(t) /\ Matched("LenLoadC") /\ UNCHANGED expv
             ELSE Diverge("load-completed")
        [] E.op = "ld" /\ E.loc = 0 ->
             IF p = "ldr" /\ W(E.saw) = reserved /\ E.ord = OrdCurrent
-              THEN LenLoadR(t) /\ Matched(2) /\ UNCHANGED expv ELSE Diverge("load-reserved")
+              THEN LenLoadR(t) /\ Matched("LenLoadR") /\ UNCHANGED expv ELSE Diverge("load-reserved")
        [] E.op = "st" /\ E.loc = 0 ->
             IF p = "str" /\ W(E.arg) = MAXW
-              THEN SkipStoreR(t) /\ Matched(2) /\ UNCHANGED expv ELSE Diverge("store-reserved")
+              THEN SkipStoreR(t) /\ Matched("SkipStoreR") /\ UNCHANGED expv ELSE Diverge("store-reserved")
        [] E.op = "st" /\ E.loc = 2 ->
             IF W(E.arg) # 1 THEN Diverge("store-completed-value")
-            ELSE IF p = "setc" THEN SetC(t) /\ Matched(2) /\ WithVisits(t)
-            ELSE IF p = "stc" THEN SkipStoreC(t) /\ Matched(2) /\ UNCHANGED expv
-            ELSE IF p = "pguard" THEN PGuard(t) /\ Matched(2) /\ UNCHANGED expv
+            ELSE IF p = "setc" THEN SetC(t) /\ Matched("SetC") /\ WithVisits(t)
+            ELSE IF p = "stc" THEN SkipStoreC(t) /\ Matched("SkipStoreC") /\ UNCHANGED expv
+            ELSE IF p = "pguard" THEN PGuard(t) /\ Matched("PGuard") /\ UNCHANGED expv
             ELSE Diverge("store-completed")
        [] OTHER -> Diverge("atomic")
 
 TNextEnter ==
   /\ IsEvent("NextEnter") /\ ~ign
-  /\ IF pc[E.t] = "enter" THEN Enter(E.t) /\ Matched(2) /\ UNCHANGED expv
-     ELSE IF pc[E.t] = "senter" THEN SeqEnter(E.t) /\ Matched(2) /\ UNCHANGED expv
+  /\ IF pc[E.t] = "enter" THEN Enter(E.t) /\ Matched("Enter") /\ UNCHANGED expv
+     ELSE IF pc[E.t] = "senter" THEN SeqEnter(E.t) /\ Matched("SeqEnter") /\ UNCHANGED expv
      ELSE Diverge("next-enter")
 
 ExpectedItem == IF calls + 1 = cf.panicAt THEN -2 ELSE IF HasItem THEN cf.base + taken ELSE -1
@@ -115,8 +119,8 @@ ExpectedItem == IF calls + 1 = cf.panicAt THEN -2 ELSE IF HasItem THEN cf.base +
 TNextExit ==
   /\ IsEvent("NextExit") /\ ~ign
   /\ IF E.item # ExpectedItem THEN Diverge("next-item")
-     ELSE IF pc[E.t] = "exit" THEN Exit(E.t) /\ Matched(2) /\ UNCHANGED expv
-     ELSE IF pc[E.t] = "sexit" THEN SeqExit(E.t) /\ Matched(2) /\ UNCHANGED expv
+     ELSE IF pc[E.t] = "exit" THEN Exit(E.t) /\ Matched("Exit") /\ UNCHANGED expv
+     ELSE IF pc[E.t] = "sexit" THEN SeqExit(E.t) /\ Matched("SeqExit") /\ UNCHANGED expv
      ELSE Diverge("next-exit")
 
 TVisit ==
@@ -145,7 +149,7 @@ TRet ==
        THEN /\ Ret(E.t)
             /\ expv' = [expv EXCEPT ![E.t] = << >>]
             /\ l' = l + 1
-            /\ cnt' = [cnt EXCEPT ![3] = @ + 1]
+            /\ cnt' = [cnt EXCEPT !["results"] = @ + 1]
             /\ UNCHANGED <<run, ign, div>>
        ELSE Diverge("return")
 
@@ -154,7 +158,7 @@ TInit ==
   /\ l = 1 /\ run = -1 /\ ign = TRUE
   /\ expv = [t \in 0..NT |-> << >>]
   /\ div = {}
-  /\ cnt = <<0, 0, 0>>
+  /\ cnt = [k \in CntNames |-> 0]
 
 TNext == TReset \/ TIgnored \/ TOther \/ TStop \/ TCall \/ TAtomic \/ TNextEnter \/ TNextExit \/ TVisit \/ TRet
 TSpec == TInit /\ [][TNext]_allvars
